@@ -391,6 +391,11 @@ impl Property for C12 {
             Err(e) => Err(Failure::new(e).with_detail(describe(&s))),
         }
     }
+    fn extra(&self, _tier: Tier, _seed: u64, _st: &mut Stats) -> Result<(), (Failure, Value)> {
+        // all cases have run: remove this process's scratch directory
+        let _ = std::fs::remove_dir_all(verif_root().join("work").join(format!("c12-{}", std::process::id())));
+        Ok(())
+    }
     fn rule(&self) -> String {
         "one process run of the freshly built CLI per case: input file in {generated valid document, byte-damaged UTF-8 document, non-UTF-8, missing, a directory, element-less} x --parser/-p in {default, quick-xml-de, serde-xml-rs} x --derive=<string from a list incl. empty, leading dashes, unicode, newline, shell metacharacters> or default x --sort in {default, unsorted, name} x output in {stdout, new file, existing file (short, 15 KB and thus longer than the new output, or garbage of exactly the new output's length), path in a missing directory, path that is a directory, path below a regular file}, options before or after the positional arguments, written as `--opt=value`, `--opt value` or `-o value`, file names plain or with blanks and non-ASCII characters. Four in ten successful file outputs are followed by a second run into the same file with the other sort order and a permuted derive list (often the same output length). Oracle: success = exit 0 and stdout (plus newline) or file bytes equal header + in-process library rendering with the mapped options, stdout empty when a file is named; failure = exit 1, empty stdout, non-empty stderr, named output untouched when the input was at fault. Non-trivial = any non-default option, an output file or a fault; distinct by hash of input bytes and arguments.".into()
     }
